@@ -356,6 +356,14 @@ func c19JudgeConfig(mask int) *vlib.Failure {
 		cfg.PreflightSuccessStatus = []int{300, 199, 456, 500, 1000, -1, -56, 1<<32 + 204, 100, 556, 712, 65536 + 204, -312}[rot%13]
 	})
 	set(8, func() { cfg.PrivateNetworkAccess, cfg.PrivateNetworkAccessInNoCORSModeOnly = true, true })
+	if mask&(1<<2|1<<3|1<<11) == 0 && mask&(1<<5) != 0 {
+		// a valid wildcard among the methods (no violation of its own; the mask lists no bad method): what the other
+		// fields did wrong is still all there
+		cfg.Methods = append(cfg.Methods, "PUT", "*")
+	}
+	if mask&(1<<4) == 0 && mask&(1<<6) != 0 {
+		cfg.RequestHeaders = append(cfg.RequestHeaders, "*", "Authorization")
+	}
 	// the same violation several times: each occurrence is a violation of its own
 	set(9, func() { cfg.Credentialed = true; cfg.ResponseHeaders = append(cfg.ResponseHeaders, "*") })
 	if mask&(1<<10) != 0 { // a second (and third) wildcard: violations only together with Credentialed
